@@ -282,7 +282,7 @@ def leg_fault(part, tier, shard, nshards):
 
 def roundtrip_cases(tier):
     depth = 2 if tier == "thorough" else 1
-    for v in gen.json_values(depth, 2):
+    for v in itertools.islice(gen.json_values(depth, 2), 150000):
         for where in ("params-list", "params-dict", "result"):
             for version in (1.0, 2.0):
                 yield (where, version, v)
@@ -381,7 +381,8 @@ META = {
     "(request/notification/result/error envelope or mandatory TypeError/ValueError); distinct by encoded argument tuple",
     "bounds": {
         "quick": {"methods": len(METHODS), "params": len(PARAMS), "rpcids": len(RPCIDS), "versions": len(VERSIONS), "roundtrip_depth": 1},
-        "thorough": {"methods": len(METHODS), "params": len(PARAMS), "rpcids": len(RPCIDS), "versions": len(VERSIONS), "roundtrip_depth": 2},
+        "thorough": {"methods": len(METHODS), "params": len(PARAMS), "rpcids": len(RPCIDS), "versions": len(VERSIONS),
+                     "roundtrip_depth": "1 exhaustively, plus the first 150000 values of depth 2 in simplest-first order"},
     },
     "assumptions": [
         "stdlib json backend (no orjson/ujson/simplejson/cjson in the image)",
